@@ -573,6 +573,12 @@ local function _lua_reset_env()
         time = os.time,
     }
 
+    -- The state of math.random belongs to the process (C library), not to
+    -- this environment: restart the sequence, so that what an invocation
+    -- draws does not depend on what earlier invocations, pages or other
+    -- contexts drew or seeded.
+    _orig_math.randomseed(0)
+
     -- Cause most packages to be reloaded
     for k, v in pairs(loaded_modules) do
         if retained_modules[k] ~= true then
